@@ -322,6 +322,9 @@ def table_obligations(rep, dname):
             rep.failed(oid, 'lrtab', f'{len(bad)}/{len(rows)} state(s) decide {bad[0][1]} where REF says {bad[0][2]} '
                        f'(e.g. state {bad[0][0]})', function=fn, cex={'states': [b[0] for b in bad][:10]}, replay=rp,
                        clause='table[state][lookahead] = REF(completed operator rule, lookahead)')
+    # what the classifier does NOT treat as an operator rule (visible in the evidence: a predicate spelled in a way the classifier does not know generates no obligation)
+    rep.census[f'{dname}.unclassified_expr_rules'] = [' '.join(p.prod) for p in d.prods[1:] if p.name == 'expr' and 'expr' in p.prod and p.number not in rules
+                                                      and not (len(p.prod) == 3 and p.prod[0] == 'LPAREN')]
     rep.census[f'{dname}.states'] = len(d.action)
     rep.census[f'{dname}.operator_rules'] = len(rules)
     rep.census[f'{dname}.decision_rows'] = n_rows
